@@ -22,7 +22,7 @@ RULE = ('case = (key algorithm, protection cipher, S2K hash, passphrase class) |
         'was injected; distinct = distinct case descriptors')
 ASSUMPTIONS = ['CPython cannot wipe immutable ints: "holds no secret integer" is checked on the object graph reachable from the key, not on freed heap memory',
                'failpoints are never placed inside the cleanup code itself (user code cannot fail there)']
-MIN_COUNTERS = {'quick': {'protect_checked': 20, 'ref_recovered_secrets': 40, 'foreign_unlocked': 30, 'history_steps': 100, 'faults_injected': 1500, 'graph_scans': 1500, 'wrong_passphrase_rejected': 30},
+MIN_COUNTERS = {'quick': {'protect_checked': 20, 'ref_recovered_secrets': 40, 'foreign_unlocked': 30, 'history_steps': 100, 'faults_injected': 1500, 'graph_scans': 1500, 'wrong_passphrase_rejected': 30, 'wrong_passphrase_rejected_while_open': 30},
                 'thorough': {'faults_injected': 8000, 'history_steps': 1500}}
 BUDGET = {'quick': (600, 1500), 'thorough': (1800, 3600)}
 TECHNIQUE = 'runtime monitoring: reference-model monitor on exports + history model + control-fault injection (sys.monitoring LINE failpoints at every line of the unlock scope) with object-graph invariant scan'
@@ -272,6 +272,19 @@ def _protect(ctx, d, pgpy):
             if not kk.is_unlocked:
                 ctx.fail('right-passphrase-does-not-unlock', {'case': d, 'form': form})
             _use(ctx, pgpy, kk, names, {'case': d, 'form': form})
+            # a wrong passphrase presented while the key is open (a "confirm your passphrase" step inside an outer scope) raises as well - to the
+            # key and to each subkey - and nothing is handed out under it
+            for tn, target in [('key', kk)] + [('subkey', x) for x in kk.subkeys.values()]:
+                wrong = (pw + '?') if isinstance(pw, str) else pw + b'?'
+                try:
+                    with target.unlock(wrong):
+                        ctx.fail('wrong-passphrase-accepted-while-the-key-is-open', {'case': d, 'form': form, 'presented_to': tn})
+                except PGPDecryptionError:
+                    ctx.count('wrong_passphrase_rejected')
+                    ctx.count('wrong_passphrase_rejected_while_open')
+                except Exception as e:
+                    ctx.count('wrong_passphrase_rejected')
+                    ctx.outcome('wrong_passphrase_while_open_error:' + type(e).__name__)
         locked_invariants(ctx, kk, names, 'after unlock scope (%s)' % form)
     # protect again with the very same passphrase, cipher and hash (fresh salt and IV expected): export must still open for others
     with k.unlock(pw):
@@ -460,6 +473,17 @@ def _history(ctx, d, pgpy):
                     ctx.fail('wrong-passphrase-unlocks', where)
             except PGPDecryptionError:
                 ctx.count('wrong_passphrase_rejected')
+            # ... and the same inside a scope that was entered with the right one
+            try:
+                with k.unlock(model['pw']):
+                    try:
+                        with k.unlock(model['pw'] + '!'):
+                            ctx.fail('wrong-passphrase-accepted-while-the-key-is-open', where)
+                    except PGPDecryptionError:
+                        ctx.count('wrong_passphrase_rejected')
+                        ctx.count('wrong_passphrase_rejected_while_open')
+            except PGPDecryptionError:
+                ctx.fail('right-passphrase-does-not-unlock', where)
         elif op == 'reprotect_inside' and model['protected']:
             # change-passphrase flow; half of the time the very same passphrase (and often the same cipher) is used again
             pw2 = r.choice(['n1', 'n2 日', model['pw'], model['pw']])
